@@ -186,7 +186,7 @@ def check_inject(case, ref, builders):
 
 def fault_cases():
     """real design faults caught by checking passes, and a generator body raising once"""
-    return [("fault", k) for k in ("width", "missing-port", "orphan", "generator-once", "generator-nested", "generator-bad-params", "late-fault-shared-children")] + \
+    return [("fault", k) for k in ("width", "missing-port", "orphan", "generator-once", "generator-nested", "generator-bad-params", "generator-fallback", "late-fault-shared-children")] + \
         [("fault", f"repair-child-ports/{how}") for how in ("add-port", "remove-port", "widen-port")] + \
         [("fault", f"persistent/{f}/depth{d}") for f in ("width", "missing-port", "array-missing-port", "anon-width", "unnamed", "self-instance", "circular")
          for d in (0, 1, 2)]
@@ -476,6 +476,70 @@ def check_fault(case, ref, builders):
             h.to_proto(Calls(n=4))
         except Exception as e:
             return (f"{kind}.poisoned", f"after a refused call: {type(e).__name__}: {str(e)[:100]}", {"case": repr(case)})
+        return None
+    if kind == "generator-fallback":
+        # a generator whose body raises EVERY time for some parameters, called from inside a generator that catches the
+        # error and falls back to another cell (the outermost call succeeds): repeating the failing call - directly, or
+        # through the same pattern in another design - reports the original error again, never a circular dependency
+        @h.generator
+        def Fancy(p: P) -> h.Module:
+            if p.n % 3 == 0:
+                raise ValueError(f"no fancy cell for n={p.n}")
+            m = h.Module()
+            m.a = h.Port()
+            m.r = h.R(r=10 * p.n)(p=m.a, n=m.a)
+            return m
+
+        @h.generator
+        def Plain(p: P) -> h.Module:
+            m = h.Module()
+            m.a = h.Port()
+            m.c = h.C(c=p.n)(p=m.a, n=m.a)
+            return m
+
+        @h.generator
+        def Chooser(p: P) -> h.Module:
+            m = h.Module()
+            m.s = h.Signal()
+            try:
+                cell = Fancy(n=p.n)
+            except ValueError:
+                cell = Plain(n=p.n)
+            m.i = cell(a=m.s)
+            return m
+
+        @h.generator
+        def Chooser2(p: P) -> h.Module:
+            m = h.Module()
+            m.s = h.Signal()
+            for k in (p.n, p.n + 1):
+                try:
+                    cell = Fancy(n=k)
+                except ValueError:
+                    cell = Plain(n=k)
+                m.add(cell(a=m.s), name=f"i{k}")
+            return m
+        fresh = None
+        for attempt in range(4):
+            for G, n in ((Chooser, 3), (Chooser2, 3), (Chooser, 6), (Chooser2, 5)):
+                try:
+                    pkg = serialize(h.to_proto(G(n=n)))
+                except Exception as e:
+                    return (f"{kind}.poisoned", f"attempt {attempt}: a generator that falls back when a sub-generator raises "
+                                                f"fails itself: {type(e).__name__}: {str(e)[:100]}", {"case": repr(case)})
+            for n in (3, 6):
+                try:
+                    Fancy(n=n)
+                    return (f"{kind}.no-raise", "generator body exception swallowed", {"case": repr(case)})
+                except ValueError as e:
+                    got = str(e)
+                except Exception as e:
+                    return (f"{kind}.poisoned", f"attempt {attempt}: the failing call repeated directly reports "
+                                                f"{type(e).__name__}: {str(e)[:100]} instead of its own error", {"case": repr(case)})
+                if got != f"no fancy cell for n={n}":
+                    return (f"{kind}.wrong-error", got, {"case": repr(case)})
+            if Fancy(n=4) is not Fancy(n=4):
+                return (f"{kind}.memo", "a good call next to the failing ones is not memoised", {"case": repr(case)})
         return None
     G = Inner if kind == "generator-once" else Outer
     try:
